@@ -264,7 +264,12 @@ def line_end_guards(ctx, f):
                     if lst in unparse(v):
                         guarded = True
             sites.append((n, guarded, len(n.comparators[0].elts)))
-    ctx.floor('trailing-separator tests in _exec_print', len(sites), 2)
+    if len(sites) < 2:
+        # the line-end decision is written some other way; the layout rule
+        # decides the behaviour of the plain branch itself
+        ctx.observe(f'only {len(sites)} `x[-1] (not) in [separators]` '
+                    f'test(s) in _exec_print; the sibling comparison of the '
+                    f'line-end guards is skipped')
     for n, guarded, seps in sites:
         branch = 'using' if any(
             isinstance(a, ast.If) and isinstance(a.test, ast.Name) and
@@ -366,7 +371,7 @@ def layout_by_items(ctx):
     sim = vmsim.VmSim(repo)
     vmsim.install_primitives(sim)
     c = sim.cell
-    alphabet = ['ab', '', 'x' * 14, 'y' * 17, ',', ';']
+    alphabet = ['ab', '', 'x' * 14, 'y' * 17, 0, -3, ',', ';']
     f = repo.func('qvm.machine', 'TerminalDevice._exec_print')
     n = 0
     bad = None
@@ -379,6 +384,9 @@ def layout_by_items(ctx):
                     cells.append(c('INTEGER', 1))
                 elif it == ',':
                     cells.append(c('INTEGER', 2))
+                elif isinstance(it, int):
+                    cells.append(c('INTEGER', 0))
+                    cells.append(c('INTEGER', it))
                 else:
                     cells.append(c('INTEGER', 0))
                     cells.append(c('STRING', it))
@@ -398,6 +406,10 @@ def layout_by_items(ctx):
             for it in items:
                 if it == ',':
                     want += ' ' * (14 - len(want) % 14)
+                elif isinstance(it, int):
+                    # an integer prints with a leading blank (or minus
+                    # sign) and a trailing blank
+                    want += ('' if it < 0 else ' ') + str(it) + ' '
                 elif it != ';':
                     want += it
             if not items or items[-1] not in (',', ';'):
